@@ -6110,6 +6110,7 @@ static size_t ZSTD_compressStream_generic(ZSTD_CStream* zcs,
                 size_t const cSize = ZSTD_compressEnd_public(zcs,
                                                 op, oend-op, ip, iend-ip);
                 ZSTD_VERIF_PROBE(ZSTD_VP_cstream_endShortcut);
+                ZSTD_VERIF_PROBE_VAL(ZSTD_VP_cstream_endShortcut, iend-ip);   /* how much input went through the shortcut */
                 DEBUGLOG(4, "ZSTD_compressEnd : cSize=%u", (unsigned)cSize);
                 FORWARD_IF_ERROR(cSize, "ZSTD_compressEnd failed");
                 ip = iend;
